@@ -96,6 +96,24 @@ def addNode (s : St) (o : NodeObj) (nodeId : Option Int) : Except Err St :=
     idIdx := dset s.idIdx newId r
     nameIdx := dset s.nameIdx (fullName o') r }
 
+/-- `AttackGraph.add_node(node, node_id)` called with a node object that exists already (reference `r`, e.g. the
+object handed to `add_node` a second time).  Since b653290 the call starts with
+`if node.id is not None and self._id_to_node.get(node.id) is node: raise ValueError`: an object that is part of
+the graph is rejected (every object of the model has been given an id by `addNode`, so `node.id is not None`
+holds).  Before, the object was listed a second time, got a second id and left its first index entry stale.  An
+object that is not part of the graph (a removed node) is registered again, as it is. -/
+def addNodeObj (s : St) (r : Nat) (nodeId : Option Int) : Except Err St :=
+  if dget s.idIdx (s.nobj r).id = some r then .error .valueError else
+  let newId := nodeId.getD s.nextNode
+  if (dget s.idIdx newId).isSome then .error .valueError else
+  let o' := { s.nobj r with id := newId }
+  .ok { s with
+    nobj := fun x => if x = r then o' else s.nobj x
+    nextNode := max (newId + 1) s.nextNode
+    nodes := s.nodes ++ [r]
+    idIdx := dset s.idIdx newId r
+    nameIdx := dset s.nameIdx (fullName o') r }
+
 /-- `Attacker.compromise(node)` -/
 def compromise (s : St) (a n : Nat) : St :=
   if (s.nobj n).compBy.contains a then s else
@@ -119,8 +137,11 @@ def removeNode (s : St) (r : Nat) : St :=
             idIdx := ddel s4.idIdx (s4.nobj r).id
             nameIdx := ddel s4.nameIdx (fullName (s4.nobj r)) }
 
-/-- `AttackGraph.add_attacker(attacker, attacker_id, entry_points, reached_attack_steps)`
-with node ids that all exist (otherwise the real code raises half-way) -/
+/-- `AttackGraph.add_attacker(attacker, attacker_id, entry_points, reached_attack_steps)` for a freshly
+constructed `Attacker`.  Since b507c7f the real code is atomic like this model: the id check and the lookup of
+ALL node ids come first (`ValueError` / `AttackGraphException`), only then the attacker gets its id, compromises
+the reached nodes, takes its entry points and is registered.  (`addAttackerPreFix` below is the order of effects
+before that commit.) -/
 def addAttacker (s : St) (name : String) (attId : Option Int) (entry reached : List Int) : Except Err St :=
   let newId := attId.getD s.nextAtt
   if (dget s.attIdx newId).isSome then .error .valueError else
@@ -133,6 +154,50 @@ def addAttacker (s : St) (name : String) (attId : Option Int) (entry reached : L
   let s2 := entry.foldl (fun s i => match getNodeById s i with
       | some n => updA s a (fun o => { o with entry := o.entry ++ [n] }) | none => s) s1
   .ok { s2 with attackers := s2.attackers ++ [a], attIdx := dset s2.attIdx newId a }
+
+/-- `add_attacker` called with an attacker object that exists already (reference `a`): since b653290 an object
+that is part of the graph is rejected first (`attacker.id is not None and self._id_to_attacker.get(attacker.id) is
+attacker`), whatever `attacker_id` is; an object that is not part of the graph (a removed attacker) is registered
+again, keeping what it has reached / its entry points. -/
+def addAttackerObj (s : St) (a : Nat) (attId : Option Int) (entry reached : List Int) : Except Err St :=
+  if dget s.attIdx (s.aobj a).id = some a then .error .valueError else
+  let newId := attId.getD s.nextAtt
+  if (dget s.attIdx newId).isSome then .error .valueError else
+  if !(reached.all (fun i => (getNodeById s i).isSome) && entry.all (fun i => (getNodeById s i).isSome)) then
+    .error .attackGraphException else
+  let s0 : St := { s with aobj := fun x => if x = a then { s.aobj a with id := newId } else s.aobj x
+                          nextAtt := max (newId + 1) s.nextAtt }
+  let s1 := reached.foldl (fun s i => match getNodeById s i with | some n => compromise s a n | none => s) s0
+  let s2 := entry.foldl (fun s i => match getNodeById s i with
+      | some n => updA s a (fun o => { o with entry := o.entry ++ [n] }) | none => s) s1
+  .ok { s2 with attackers := s2.attackers ++ [a], attIdx := dset s2.attIdx newId a }
+
+/-- the two lookup loops of `add_attacker` BEFORE b507c7f: each id is looked up and acted upon *at once*; the first
+id that names no node stops the loop (`false`: `AttackGraphException` is raised there) -/
+def preFixReach (a : Nat) (s : St) : List Int → St × Bool
+  | [] => (s, true)
+  | i :: l => match getNodeById s i with | some n => preFixReach a (compromise s a n) l | none => (s, false)
+def preFixEntry (a : Nat) (s : St) : List Int → St × Bool
+  | [] => (s, true)
+  | i :: l => match getNodeById s i with
+    | some n => preFixEntry a (updA s a (fun o => { o with entry := o.entry ++ [n] })) l | none => (s, false)
+
+/-- the order of effects of `add_attacker` BEFORE b507c7f, for a freshly constructed attacker: `attacker.id` is
+assigned, then the id is checked, then the reached ids are looked up and compromised one by one, then the entry
+points — a lookup that fails raises in the middle.  Returns the state the call leaves behind together with the
+exception, if any (the attacker is registered only when there is none). -/
+def addAttackerPreFix (s : St) (name : String) (attId : Option Int) (entry reached : List Int) : St × Option Err :=
+  let newId := attId.getD s.nextAtt
+  let a := s.afresh
+  let s0 : St := { s with aobj := fun x => if x = a then { id := newId, name := name } else s.aobj x, afresh := a + 1 }
+  if (dget s.attIdx newId).isSome then (s0, some .valueError) else
+  let s0 : St := { s0 with nextAtt := max (newId + 1) s.nextAtt }
+  match preFixReach a s0 reached with
+  | (s1, false) => (s1, some .attackGraphException)
+  | (s1, true) =>
+    match preFixEntry a s1 entry with
+    | (s2, false) => (s2, some .attackGraphException)
+    | (s2, true) => ({ s2 with attackers := s2.attackers ++ [a], attIdx := dset s2.attIdx newId a }, none)
 
 /-- `AttackGraph.remove_attacker(attacker)` -/
 def removeAttacker (s : St) (a : Nat) : St :=
